@@ -6,22 +6,21 @@ rows = []
 for m in sorted(glob.glob(os.path.join(VERIF, "seeded", "*", "meta.json"))):
     d = json.load(open(m)); name = os.path.basename(os.path.dirname(m))
     rows.append((name, d))
-print("| seed | what it breaks (author's summary, shortened) | caught by (quick tier) | first input reported by the property's own check | first version of the checks |")
+print("| seed | what it breaks (author's summary, shortened) | caught by (quick tier) | what the catching checks report (violation key: count) | first version of the checks |")
 print("|---|---|---|---|---|")
 caught = 0
 for name, d in rows:
     cb = d.get("caught_by")
-    own = (d.get("checks_run") or {}).get(d["property"], {})
-    first = (own.get("first") or {})
-    inp = (first.get("input") or "").replace("\n", " ").replace("|", "/")
-    # drop the common preludes from the displayed input
-    for pre in ("let gx = 1; let gy = 2; let ga = array(3, 0); ",):
-        inp = inp.replace(pre, "")
+    keys = []
+    for pid in (cb or [])[:3]:
+        vk = (d.get("checks_run") or {}).get(pid, {}).get("violation_keys") or {}
+        top = sorted(vk.items(), key=lambda kv: -kv[1])[:2]
+        keys.append("%s: %s" % (pid, ", ".join("%s: %d" % (k, v) for k, v in top)))
     fv = d.get("first_version_of_the_checks")
-    fvs = "" if not fv else ("missed by %s" % ",".join(fv["checks_run"]) if not fv["caught_by"] else "caught")
+    fvs = "" if not fv else ("missed by %s, then strengthened" % ",".join(fv["checks_run"]) if not fv["caught_by"] else "caught")
     if cb: caught += 1
-    print("| %s | %s | %s | %s | %s |" % (name, (d.get("summary") or "").replace("\n", " ").replace("|", "/")[:160], ", ".join(cb) if cb else ("**not caught**" if cb is not None else "not evaluated"),
-                                       ("`%s`" % inp[:110]) if inp else "", fvs))
+    print("| %s | %s | %s | %s | %s |" % (name, (d.get("summary") or "").replace("\n", " ").replace("|", "/")[:170], ", ".join(cb) if cb else ("**not caught**" if cb is not None else "not evaluated"),
+                                       "; ".join(keys).replace("|", "/")[:260], fvs))
 print()
 print("%d of %d confirmed seeds are caught by at least one quick check." % (caught, len(rows)))
 print()
